@@ -224,8 +224,9 @@ def _values(run, prog, cls, s, fq, db, cond, subset, x, n, mctx, mev):
                          f"[{mode}] the value is not taken from an indexed row of the storage: {ir.show_nl(row)[:160]}")
                 continue
             F, idx = row[1], row[2]
-            genuine = F[0] == "tget" and F[2] == 0 and F[1][0] == "res" and F[1][2] == ".get_data" and \
-                F[1][3] and F[1][3][0] == sf
+            genuine = F[0] == "tget" and F[2] == 0 and F[1][0] == "res" and (
+                (F[1][2] == ".get_data" and F[1][3] and F[1][3][0] == sf) or
+                (F[1][2] == f"self.{sf[1]}.get_data" and not F[1][3]))
             if not genuine:
                 run.fail("VALUE", inst, f"{s.path}:{line}", fq, f"{mode} rows from {ir.show_nl(F)[:120]}",
                          f"[{mode}] background rows must be the storage's current get_data()[0] read in this call; they "
